@@ -194,6 +194,8 @@ class Dog:
 
 
 PetU = Annotated[Union[Cat, Dog], discriminator("type")]  # discriminator values come from the type names
+# partial explicit mapping kept in a user dict: the implicit key of the unmapped alternative (Dog) follows its type name
+PetM = Annotated[Union[Cat, Dog], discriminator("type", {"kitty": Cat})]
 
 
 @dataclass
@@ -602,7 +604,7 @@ for _a in ERROR_ATTRS:
 TYPES = {
     "Conv": Conv, "ConvSub": ConvSub, "ConvHolder": ConvHolder, "ConvDC": ConvDC, "PreConv": PreConv, "PreConvHolder": PreConvHolder,
     "Obj": Obj, "ObjDC": ObjDC, "PreObj": PreObj, "ObjHolder": ObjHolder, "Rec": Rec, "RecHolder": RecHolder,
-    "Named": Named, "NamedHolder": NamedHolder, "Cat": Cat, "Dog": Dog, "PetU": PetU, "LitA": LitA, "LitU": LitU,
+    "Named": Named, "NamedHolder": NamedHolder, "Cat": Cat, "Dog": Dog, "PetU": PetU, "PetM": PetM, "LitA": LitA, "LitU": LitU,
     "Sch": Sch, "SchStr": SchStr, "SchDC": SchDC, "SchHolder": SchHolder,
     "Aliased": Aliased, "AliasedHolder": AliasedHolder,
     "Ordered": Ordered, "OrderedHolder": OrderedHolder,
@@ -627,6 +629,7 @@ DATA = {
     "Rec": [{"v": 1, "next": {"v": 2, "next": None}}, {"v": 1}], "RecHolder": [{"r": {"v": 1, "next": {"v": 2}}, "rs": [{"v": 3}]}],
     "Named": [{"x": 1}], "NamedHolder": [{"a": {"x": 1}, "b": {"x": 2}}], "Cat": [{"name": "tom"}],
     "PetU": [{"type": "Cat", "name": "tom"}, {"type": "Kitty", "name": "tom"}, {"type": "P_Cat"}, {"type": "F_Cat"}, {"type": "Dog"}],
+    "PetM": [{"type": "kitty", "name": "tom"}, {"type": "Dog", "name": "rex"}, {"type": "Doggo", "name": "rex"}, {"type": "Cat"}],
     "LitA": [{"x": 1}, {"kind": "first", "x": 1}],
     "LitU": [{"kind": "LitA", "x": 1}, {"kind": "first", "x": 1}, {"kind": "premier"}, {"kind": "LitB", "y": 2}],
     "Sch": [-1, 3, 7], "SchStr": ["a", "bcd", "abc"], "SchDC": [{"k": 1}, {}], "SchHolder": [{"s": -1, "l": [7, -2], "t": "b", "d": {}}],
@@ -658,7 +661,7 @@ VALUES = {
     "Obj": [lambda: Obj(1, "x", 2)], "ObjDC": [lambda: ObjDC(1, "z")], "PreObj": [lambda: PreObj(1, "q")],
     "ObjHolder": [lambda: ObjHolder(Obj(1, "x", 2), ObjDC(2), PreObj(3))],
     "Rec": [lambda: Rec(1, Rec(2))], "RecHolder": [lambda: RecHolder(Rec(1, Rec(2)), [Rec(3)])],
-    "Named": [lambda: Named(1)], "NamedHolder": [lambda: NamedHolder(Named(1), Named(2))], "PetU": [lambda: Cat("tom"), lambda: Dog("rex")],
+    "Named": [lambda: Named(1)], "NamedHolder": [lambda: NamedHolder(Named(1), Named(2))], "PetU": [lambda: Cat("tom"), lambda: Dog("rex")], "PetM": [lambda: Cat("tom"), lambda: Dog("rex")],
     "LitA": [lambda: LitA(1)], "LitU": [lambda: LitA(1), lambda: LitB(2)],
     "Sch": [lambda: 3], "SchHolder": [lambda: SchHolder(Sch(1), [Sch(2)])], "SchDC": [lambda: SchDC(1)],
     "Aliased": [_aliased], "AliasedHolder": [lambda: AliasedHolder(_aliased(), 2)],
@@ -682,7 +685,7 @@ GENERIC = ["Int", "ListInt", "DictAny", "OptInt", "Defaulted"]
 CONV_T = ["Conv", "ConvSub", "ConvHolder", "AnyT"]
 PRE_T = ["PreConv", "PreConvHolder"]
 OBJ_T = ["Obj", "ObjHolder"]
-ALL_OBJECTS = ["Defaulted", "Aliased", "AliasedHolder", "Ordered", "NamedHolder", "ObjDC", "Raw", "Cons", "FS", "Meth", "PetU", "Base", "UnionSub"]
+ALL_OBJECTS = ["Defaulted", "Aliased", "AliasedHolder", "Ordered", "NamedHolder", "ObjDC", "Raw", "Cons", "FS", "Meth", "PetU", "PetM", "Base", "UnionSub"]
 
 
 def _ops():
@@ -722,8 +725,8 @@ def _ops():
     for impl in ("lita_fields_plain", "lita_fields_lit", "lita_fields_lit2", None):
         add(["LitU", "LitA"], op="set_object_fields", target="LitA", impl=impl)
     # --- type names
-    for target, types in (("Named", ["Named", "NamedHolder"]), ("Cat", ["PetU", "Cat"]), ("SubA", ["Base", "UnionSub", "BaseHolder"])):
-        add(types, op="type_name", target=target, v={"Named": "Renamed", "Cat": "Kitty", "SubA": "a"}[target])
+    for target, types in (("Named", ["Named", "NamedHolder"]), ("Cat", ["PetU", "Cat"]), ("SubA", ["Base", "UnionSub", "BaseHolder"]), ("Dog", ["PetM", "Dog"])):
+        add(types, op="type_name", target=target, v={"Named": "Renamed", "Cat": "Kitty", "SubA": "a", "Dog": "Doggo"}[target])
         add(types, op="type_name", target=target, v=None)
         add(types, op="type_name", target=target, impl="tn_factory")
     # --- schema registry
